@@ -47,68 +47,198 @@ var (
 
 func clone(b []byte) []byte { return append([]byte{}, b...) }
 
-func keyToBytes(k hkey) ([]byte, error) {
-	if len(k) > 0 && k[0] == 0xEE {
-		return nil, errEncode
-	}
-
-	return k[:], nil
-}
-
 func bytesToKey(b []byte) (hkey, int, error) { return hkey(clone(b)), len(b), nil }
-
-func valToBytes(v hval) ([]byte, error) {
-	if len(v) > 0 && v[0] == 0xEE {
-		return nil, errEncode
-	}
-
-	return v[:], nil
-}
-
-func bytesToVal(b []byte) (hval, int, error) {
-	if len(b) > 0 && b[0] == 0xDD {
-		return nil, 0, errDecode
-	}
-	if len(b) > 0 && b[0] == 0xCC {
-		return hval(clone(b)), len(b) - 1, nil
-	}
-
-	return hval(clone(b)), len(b), nil
-}
-
-// The "view" codecs hand the byte slices through without copying, like `testValue` / `testKey` of the
-// package's own tests (`return b, len(b), nil`): what Get returns then aliases the bytes the trie holds.
-func bytesToKeyView(b []byte) (hkey, int, error) { return hkey(b), len(b), nil }
-
-func bytesToValView(b []byte) (hval, int, error) {
-	if len(b) > 0 && b[0] == 0xDD {
-		return nil, 0, errDecode
-	}
-	if len(b) > 0 && b[0] == 0xCC {
-		return hval(b), len(b) - 1, nil
-	}
-
-	return hval(b), len(b), nil
-}
 
 type amap = ads.Map[[32]byte, hkey, hval]
 type aset = ads.Set[[32]byte, hkey]
 
-func openMap(st kvstore.KVStore) amap {
-	return ads.NewMap[[32]byte](st, typeutils.ByteArray32ToBytes, typeutils.ByteArray32FromBytes,
-		keyToBytes, bytesToKey, valToBytes, bytesToVal)
+// codec: which serializers an instance is constructed with — one letter each for the identifier, the key and
+// the value: i = the bytes themselves, p = one leading tag byte, r = the bytes in reverse order, l = one leading
+// length byte.  All of them round-trip; only `i` of the identifier codec stores the raw 32 bytes of the root.
+type codec struct{ id, key, val byte }
+
+var identityCodec = codec{'i', 'i', 'i'}
+
+func (c codec) String() string { return string([]byte{c.id, c.key, c.val}) }
+
+const (
+	tagID  = 0x01
+	tagKey = 0x4B
+	tagVal = 0x56
+)
+
+func reversed(b []byte) []byte {
+	if b == nil {
+		return nil
+	}
+	r := make([]byte, len(b))
+	for i := range b {
+		r[len(b)-1-i] = b[i]
+	}
+
+	return r
 }
 
-// openMapView: the flavour `mapa` — a map whose deserializers do not copy.
-func openMapView(st kvstore.KVStore) amap {
-	return ads.NewMap[[32]byte](st, typeutils.ByteArray32ToBytes, typeutils.ByteArray32FromBytes,
-		keyToBytes, bytesToKeyView, valToBytes, bytesToValView)
+// encBytes: the stored form of b under codec letter c.
+func encBytes(c, tag byte, b []byte) []byte {
+	switch c {
+	case 'p':
+		return append([]byte{tag}, b...)
+	case 'r':
+		return reversed(b)
+	case 'l':
+		return append([]byte{byte(len(b))}, b...)
+	}
+
+	return b
 }
 
-func isFlavour(f string) bool { return f == "map" || f == "mapa" || f == "set" }
+// decBytes: the payload of the stored form b (a sub-slice of b for p and l, b itself for i).
+func decBytes(c, tag byte, b []byte) ([]byte, error) {
+	switch c {
+	case 'p':
+		if len(b) < 1 || b[0] != tag {
+			return nil, errDecode
+		}
 
-func openSet(st kvstore.KVStore) aset {
-	return ads.NewSet[[32]byte](st, typeutils.ByteArray32ToBytes, typeutils.ByteArray32FromBytes, keyToBytes, bytesToKey)
+		return b[1:], nil
+	case 'r':
+		return reversed(b), nil
+	case 'l':
+		if len(b) < 1 || int(b[0]) != len(b)-1 {
+			return nil, errDecode
+		}
+
+		return b[1:], nil
+	}
+
+	return b, nil
+}
+
+// codecCtl: switches that make the identifier codec of an instance (and of its probes) fail (`idfail`).
+type codecCtl struct{ encFail, decFail bool }
+
+func parseFlavour(tok string) (string, codec, bool) {
+	fl, cs, has := strings.Cut(tok, ":")
+	c := identityCodec
+	if has {
+		if len(cs) != 3 {
+			return "", c, false
+		}
+		c = codec{cs[0], cs[1], cs[2]}
+	}
+	for _, x := range []byte{c.id, c.key, c.val} {
+		if !strings.ContainsRune("iprl", rune(x)) {
+			return "", c, false
+		}
+	}
+	if fl != "map" && fl != "mapa" && fl != "set" || fl == "set" && c.val != 'i' {
+		return "", c, false
+	}
+
+	return fl, c, true
+}
+
+// serializers of an instance.  `view`: the deserializers hand sub-slices of their input through without copying,
+// like `testValue` / `testKey` of the package's own tests (`return b, len(b), nil`): what Get returns then aliases
+// the bytes the trie holds (flavour `mapa`).
+type serializers struct {
+	idTo    kvstore.ObjectToBytes[[32]byte]
+	idFrom  kvstore.BytesToObject[[32]byte]
+	keyTo   kvstore.ObjectToBytes[hkey]
+	keyFrom kvstore.BytesToObject[hkey]
+	valTo   kvstore.ObjectToBytes[hval]
+	valFrom kvstore.BytesToObject[hval]
+}
+
+func makeSerializers(c codec, ctl *codecCtl, view bool) serializers {
+	own := func(b []byte) []byte {
+		if view {
+			return b
+		}
+
+		return clone(b)
+	}
+
+	return serializers{
+		idTo: func(r [32]byte) ([]byte, error) {
+			if ctl != nil && ctl.encFail {
+				return nil, errEncode
+			}
+			if c.id == 'i' {
+				return typeutils.ByteArray32ToBytes(r)
+			}
+
+			return encBytes(c.id, tagID, r[:]), nil
+		},
+		idFrom: func(b []byte) (r [32]byte, n int, err error) {
+			if ctl != nil && ctl.decFail {
+				return r, 0, errDecode
+			}
+			if c.id == 'i' {
+				return typeutils.ByteArray32FromBytes(b)
+			}
+			p, err := decBytes(c.id, tagID, b)
+			if err != nil || len(p) != 32 {
+				return r, 0, errDecode
+			}
+			copy(r[:], p)
+
+			return r, len(b), nil
+		},
+		keyTo: func(k hkey) ([]byte, error) {
+			if len(k) > 0 && k[0] == 0xEE {
+				return nil, errEncode
+			}
+
+			return encBytes(c.key, tagKey, k[:]), nil
+		},
+		keyFrom: func(b []byte) (hkey, int, error) {
+			p, err := decBytes(c.key, tagKey, b)
+			if err != nil {
+				return nil, 0, err
+			}
+
+			return hkey(own(p)), len(b), nil
+		},
+		valTo: func(v hval) ([]byte, error) {
+			if len(v) > 0 && v[0] == 0xEE {
+				return nil, errEncode
+			}
+
+			return encBytes(c.val, tagVal, v[:]), nil
+		},
+		valFrom: func(b []byte) (hval, int, error) {
+			p, err := decBytes(c.val, tagVal, b)
+			if err != nil {
+				return nil, 0, err
+			}
+			if len(p) > 0 && p[0] == 0xDD {
+				return nil, 0, errDecode
+			}
+			if len(p) > 0 && p[0] == 0xCC {
+				return hval(own(p)), len(b) - 1, nil
+			}
+
+			return hval(own(p)), len(b), nil
+		},
+	}
+}
+
+func openMapWith(st kvstore.KVStore, z serializers) amap {
+	return ads.NewMap[[32]byte](st, z.idTo, z.idFrom, z.keyTo, z.keyFrom, z.valTo, z.valFrom)
+}
+
+func openSetWith(st kvstore.KVStore, z serializers) aset {
+	return ads.NewSet[[32]byte](st, z.idTo, z.idFrom, z.keyTo, z.keyFrom)
+}
+
+// openRawMap: a map with the plain identity serializers (nothing refuses to encode or decode): what the oracle
+// feeds the *stored* contents of an instance to.
+func openRawMap(st kvstore.KVStore) amap {
+	return ads.NewMap[[32]byte](st, typeutils.ByteArray32ToBytes, typeutils.ByteArray32FromBytes,
+		func(k hkey) ([]byte, error) { return k[:], nil }, bytesToKey,
+		func(v hval) ([]byte, error) { return v[:], nil }, func(b []byte) (hval, int, error) { return hval(clone(b)), len(b), nil })
 }
 
 // ---------------------------------------------------------------------------------------------
@@ -118,6 +248,9 @@ type pair struct{ k, v []byte }
 
 type inst struct {
 	flavour string // map | mapa (non-copying deserializers) | set
+	codec   codec  // the serializers it is constructed with
+	ctl     *codecCtl
+	tok     string // flavour[:codec] as in the request line
 	store   kvstore.KVStore
 	db      kvstore.KVStore // the database below the view (for `peek`)
 	realm   []byte          // the realm of the view inside db
@@ -210,26 +343,49 @@ func (in *inst) stream(stop int) ([]pair, error) {
 }
 
 func (in *inst) reopen() {
-	switch in.flavour {
-	case "map":
-		in.m = openMap(in.store)
-	case "mapa":
-		in.m = openMapView(in.store)
-	default:
-		in.s = openSet(in.store)
+	z := makeSerializers(in.codec, in.ctl, in.flavour == "mapa")
+	if in.isMap() {
+		in.m = openMapWith(in.store, z)
+	} else {
+		in.s = openSetWith(in.store, z)
 	}
+}
+
+// encKey / encVal: the stored form of a key / value of the plain map under the instance's serializers.
+func (in *inst) encKey(k []byte) []byte { return encBytes(in.codec.key, tagKey, k) }
+
+func (in *inst) encVal(v []byte) []byte {
+	if !in.isMap() {
+		return []byte{}
+	}
+	if e := encBytes(in.codec.val, tagVal, v); e != nil {
+		return e
+	}
+
+	return []byte{}
+}
+
+// stored: the contents of the plain map as the trie holds them (encoded keys and values).
+func (in *inst) stored() map[string][]byte {
+	m := make(map[string][]byte, len(in.want))
+	for k, v := range in.want {
+		m[string(in.encKey([]byte(k)))] = in.encVal(v)
+	}
+
+	return m
 }
 
 // probe opens one more instance of the same flavour over the same store; it is only read from.
 func (in *inst) probe() *inst {
-	p := &inst{flavour: in.flavour, store: in.store}
+	p := &inst{flavour: in.flavour, store: in.store, codec: in.codec, ctl: in.ctl, tok: in.tok}
 	p.reopen()
 
 	return p
 }
 
-// freshRoots caches, per contents, the root of a new map (copying codecs, own mapdb) that was fed
-// exactly these contents in key order: what "the root depends on the contents alone" is measured against.
+// freshRoots caches, per stored contents, the root of a new map (identity serializers, own mapdb) that was fed
+// exactly these stored contents in key order: what "the root depends on the contents alone" is measured against.
+// (Callers pass `in.stored()`: an instance with non-identity key / value serializers holds the encoded pairs.)
 var freshRoots = map[string][32]byte{}
 
 func freshRoot(want map[string][]byte) [32]byte {
@@ -237,7 +393,7 @@ func freshRoot(want map[string][]byte) [32]byte {
 	if rt, ok := freshRoots[c]; ok {
 		return rt
 	}
-	m := openMap(mapdb.NewMapDB())
+	m := openRawMap(mapdb.NewMapDB())
 	keys := make([]string, 0, len(want))
 	for k := range want {
 		keys = append(keys, k)
@@ -342,7 +498,7 @@ func newSession(r *hx.Run) *session {
 func (ss *session) fail(oracle, op string, in *inst, detail string) {
 	fl := ""
 	if in != nil {
-		fl = in.flavour
+		fl = in.tok
 	}
 	ss.fails = append(ss.fails, failRec{oracle, op, fl, len(ss.lines)})
 	if ss.quiet {
@@ -454,10 +610,15 @@ func (ss *session) exec(op string) string {
 		return "ok"
 	}
 	if f[0] == "open" {
-		if len(f) != 3 || !isFlavour(f[2]) {
+		fl, cd, fok := "", identityCodec, false
+		if len(f) == 3 {
+			fl, cd, fok = parseFlavour(f[2])
+		}
+		if !fok {
 			return "bad-op"
 		}
-		in := &inst{flavour: f[2], store: mapdb.NewMapDB(), want: map[string][]byte{}, committed: map[string][]byte{}}
+		in := &inst{flavour: fl, codec: cd, ctl: &codecCtl{}, tok: f[2], store: mapdb.NewMapDB(), want: map[string][]byte{}, committed: map[string][]byte{}}
+		ss.count("codec:" + cd.String())
 		in.db = in.store
 		in.reopen()
 		ss.insts[idx] = in
@@ -466,7 +627,11 @@ func (ss *session) exec(op string) string {
 	}
 	if f[0] == "openr" {
 		// openr <i> <flavour> <d> <seg/seg/...>: instance i over a realm view of the shared database d
-		if len(f) != 5 || !isFlavour(f[2]) {
+		fl, cd, fok := "", identityCodec, false
+		if len(f) == 5 {
+			fl, cd, fok = parseFlavour(f[2])
+		}
+		if !fok {
 			return "bad-op"
 		}
 		d, err := strconv.Atoi(f[3])
@@ -495,7 +660,8 @@ func (ss *session) exec(op string) string {
 			}
 		}
 		ss.realms[d] = append(ss.realms[d], realm)
-		in := &inst{flavour: f[2], store: view, db: db, realm: clone(realm), want: map[string][]byte{}, committed: map[string][]byte{}}
+		in := &inst{flavour: fl, codec: cd, ctl: &codecCtl{}, tok: f[2], store: view, db: db, realm: clone(realm), want: map[string][]byte{}, committed: map[string][]byte{}}
+		ss.count("codec:" + cd.String())
 		in.reopen()
 		ss.insts[idx] = in
 		ss.count("instance-over-realm-view")
@@ -796,7 +962,9 @@ func (ss *session) execOn(in *inst, idx int, f []string) string {
 				ss.fail("layout", "peek", in, fmt.Sprintf("%d raw keys below realm+{0}, the plain map holds %d keys", len(rawBytes), len(in.want)))
 			}
 			for _, k := range rawBytes {
-				if _, has := in.want[string(k)]; !has {
+				if dk, err := decBytes(in.codec.key, tagKey, k); err != nil {
+					ss.fail("layout", "peek", in, fmt.Sprintf("raw key %x below realm+{0} is not the stored form of a key", k))
+				} else if _, has := in.want[string(dk)]; !has {
 					ss.fail("layout", "peek", in, fmt.Sprintf("raw key %x below realm+{0} is not in the plain map", k))
 				}
 			}
@@ -805,8 +973,8 @@ func (ss *session) execOn(in *inst, idx int, f []string) string {
 			}
 			if (rerr == nil) != (in.commits > 0) {
 				ss.fail("layout", "peek", in, fmt.Sprintf("root cell realm+{2} present = %v after %d commits", rerr == nil, in.commits))
-			} else if rerr == nil && !bytes.Equal(rootB, in.commitRoot[:]) {
-				ss.fail("layout", "peek", in, "root cell realm+{2} does not hold the Root() of the last Commit")
+			} else if rerr == nil && !bytes.Equal(rootB, encBytes(in.codec.id, tagID, in.commitRoot[:])) {
+				ss.fail("layout", "peek", in, "root cell realm+{2} does not hold the stored form of the Root() of the last Commit")
 			}
 			if (nodes > 0) != (len(in.committed) > 0) {
 				ss.fail("layout", "peek", in, fmt.Sprintf("%d trie records below realm+{1}, the last Commit flushed %d keys", nodes, len(in.committed)))
@@ -823,7 +991,7 @@ func (ss *session) execOn(in *inst, idx int, f []string) string {
 		return "restored " + strconv.FormatBool(b)
 	case "root":
 		rt := in.root()
-		c := canon(in.want)
+		c := canon(in.stored())
 		cls := len(ss.points)
 		for i, p := range ss.points {
 			if p.root == rt {
@@ -833,7 +1001,7 @@ func (ss *session) execOn(in *inst, idx int, f []string) string {
 			}
 		}
 		if check {
-			if fr := freshRoot(in.want); fr != rt {
+			if fr := freshRoot(in.stored()); fr != rt {
 				ss.fail("root-content-only", "root", in, fmt.Sprintf("Root() differs from the root of a new map fed the same contents {%s}", c))
 			}
 			repeat := "new-class"
@@ -861,7 +1029,7 @@ func (ss *session) execOn(in *inst, idx int, f []string) string {
 			}
 			ss.count("root:" + repeat)
 			ss.classes[c] = struct{}{}
-			switch l := maxLCP(in.want); {
+			switch l := maxLCP(in.stored()); {
 			case l >= 16:
 				ss.count("root-point:keys-share>=16bits")
 			case l >= 8:
@@ -929,7 +1097,7 @@ func (ss *session) checkProbe(in *inst, op string) {
 	p := in.probe()
 	if rt, prt := in.root(), p.root(); rt != prt {
 		ss.fail("reopen-faithful", op, in, "an instance opened after Commit reports another Root() than the committed one")
-	} else if fr := freshRoot(in.want); fr != prt {
+	} else if fr := freshRoot(in.stored()); fr != prt {
 		ss.fail("reopen-faithful", op, in, fmt.Sprintf("an instance opened after Commit reports a Root() that is not the root of the contents {%s}", canon(in.want)))
 	}
 	if n := p.size(); n != len(in.want) {
@@ -985,9 +1153,10 @@ func (ss *session) checkStream(in *inst, ps []pair, end string, stop int) {
 	}
 	var expKeys []string
 	expEnd := "ok"
-	for _, k := range in.rawOrder() {
+	for _, rk := range in.rawOrder() {
+		k, derr := decBytes(in.codec.key, tagKey, rk)
 		w, has := in.want[string(k)]
-		if !has {
+		if derr != nil || !has {
 			continue // reported by the layout oracle
 		}
 		if in.isMap() && len(w) > 0 && w[0] == 0xDD {
@@ -1025,6 +1194,7 @@ type gen struct {
 	rng     *hx.Rng
 	keys    []string
 	flavour []string // per instance
+	tok     []string // per instance: flavour[:codec]
 	vals    []string // value alphabet of a random session
 	dirtyOK bool
 	// generator-side knowledge, only used to place reopen requests at commit points
@@ -1244,6 +1414,32 @@ func genSession(rng *hx.Rng, clusters []mine.Cluster, nOps int) []string {
 			g.flavour = append(g.flavour, hx.Pick(rng, []string{"map", "mapa", "set"}))
 		}
 	}
+	// serializers: half of the sessions use the identity serializers throughout; in the others every instance draws
+	// its identifier / key / value serializer from identity, tag byte, reversed bytes, length byte (all round-trip)
+	plainCodecs := rng.Chance(1, 2)
+	letters := []string{"i", "p", "r", "l"}
+	sharedKV, kc0, vc0 := rng.Chance(1, 2), hx.Pick(rng, letters), hx.Pick(rng, letters)
+	for i := 0; i < nInst; i++ {
+		tok := g.flavour[i]
+		if !plainCodecs {
+			// (in half of these sessions all instances share the key and value serializer, so that equal plain
+			// maps still meet in one root class)
+			kc, vc := hx.Pick(rng, letters), hx.Pick(rng, letters)
+			if sharedKV {
+				kc, vc = kc0, vc0
+			}
+			cd := hx.Pick(rng, letters) + kc
+			if g.flavour[i] == "set" {
+				cd += "i"
+			} else {
+				cd += vc
+			}
+			if cd != "iii" {
+				tok += ":" + cd
+			}
+		}
+		g.tok = append(g.tok, tok)
+	}
 	g.pending = make([]bool, nInst)
 	g.dirtyOK = rng.Chance(1, 16)
 	var ops []string
@@ -1261,11 +1457,11 @@ func genSession(rng *hx.Rng, clusters []mine.Cluster, nOps int) []string {
 		})
 		ops = append(ops, "opendb 0")
 		for i := 0; i < nInst; i++ {
-			ops = append(ops, fmt.Sprintf("openr %d %s 0 %s", i, g.flavour[i], realms[i]))
+			ops = append(ops, fmt.Sprintf("openr %d %s 0 %s", i, g.tok[i], realms[i]))
 		}
 	} else {
 		for i := 0; i < nInst; i++ {
-			ops = append(ops, fmt.Sprintf("open %d %s", i, g.flavour[i]))
+			ops = append(ops, fmt.Sprintf("open %d %s", i, g.tok[i]))
 		}
 	}
 	if rng.Chance(2, 5) {
